@@ -37,7 +37,7 @@ RULE = ("stacks of 1-3 sibling scopes (parentless nodes / Workflow children / ch
         "and to the enclosing macros (by hand, or by automation after a run of the Workflow root); "
         "WARM histories: the target is pulled / the Workflow root run first, THEN an executor is put on a closure node "
         "and/or an upstream input changes, then the observed pull (refused as for cold nodes, nothing left running); "
-        "parents, permuted labels; EVERY node of the target scope as target, with and without parent scopes. "
+        "parents, permuted labels, a Workflow inputs_map exposing connected child inputs under new names; EVERY node of the target scope as target, with and without parent scopes. "
         "Non-trivial = the closure has at least two nodes or the pull is refused; distinct = distinct case JSON")
 TRUSTED = ["a node flagged `running` (no executor) enters the model as a node that is not ready (its failed flag); the "
            "class of its refusal (RuntimeError at the input lock / ReadinessError at the gate) is not distinguished; "
@@ -159,6 +159,12 @@ def build(case):
             e, r, s = sg[0], sg[1], sg[2]
             out = nodes[e].signals.output.failed if _is_failed(sg) else nodes[e].signals.output.ran
             _sig_in(nodes[r], s).connect(out)
+        if L["par"] == "wf" and L.get("expose"):
+            # the workflow exposes CONNECTED child inputs under new names: its IO panel then holds channels that
+            # have connections -- which are not upstream of the workflow
+            parent.inputs_map = {
+                f"{L['labels'][v]}__{'x' if (lv > 0 and L['comp'] == v) else CH[ch]}": f"inp{j}"
+                for j, (v, ch) in enumerate(L["expose"])}
         if parent is not None:
             parent.starting_nodes = [nodes[i] for i in L["start"]]
             if L["par"] == "wf":
@@ -765,7 +771,15 @@ def gen_level(rng, lv, par, is_top, n, comp):
                     sig.append([e, r, "acc"] + kind())
         rng.shuffle(sig)
     start = rng.sample(range(n), rng.choice([0, 0, 1, 2]) if n >= 2 else rng.choice([0, 1])) if par != "none" else []
-    return {"par": par, "n": n, "labels": labels, "data": data, "comp": comp, "sig": sig, "start": start,
+    expose = []
+    if par == "wf" and data and rng.random() < 0.45:
+        seen = set()
+        for u, v, ch in rng.sample(data, min(len(data), rng.choice([1, 2, 2]))):
+            key = (v, 0 if v == comp else ch)
+            if key not in seen:
+                seen.add(key)
+                expose.append([v, ch])
+    return {"expose": expose, "par": par, "n": n, "labels": labels, "data": data, "comp": comp, "sig": sig, "start": start,
             "exe": [], "bad": [], "failed": [], "pfailed": False, "automate": rng.random() < 0.8}
 
 
@@ -1079,7 +1093,7 @@ def shrink_candidates(case):
     c = json.loads(json.dumps(case))
     levels = c["levels"]
     for lv, L in enumerate(levels):
-        for fld in ("sig", "data", "start", "exe", "bad", "failed", "foreign", "nocache", "touch", "running"):
+        for fld in ("sig", "data", "start", "exe", "bad", "failed", "foreign", "nocache", "touch", "running", "expose"):
             for i in range(len(L.get(fld, []))):
                 d = json.loads(json.dumps(c))
                 del d["levels"][lv][fld][i]
@@ -1091,7 +1105,7 @@ def shrink_candidates(case):
         # drop the last node of a level when nothing refers to it
         last = L["n"] - 1
         used = (any(last in (u, v) for u, v, _ in L["data"]) or any(last in (sg[0], sg[1]) for sg in L["sig"])
-                or last in L["start"] + L["exe"] + L["bad"] + L["failed"] + L.get("foreign", []) + L.get("nocache", []) + L.get("touch", []) + L.get("running", [])
+                or last in L["start"] + L["exe"] + L["bad"] + L["failed"] + L.get("foreign", []) + L.get("nocache", []) + L.get("touch", []) + L.get("running", []) + [e[0] for e in L.get("expose", [])]
                 or L.get("comp") == last
                 or (lv == 0 and c["target"] == last)
                 or (lv == 0 and any(last in (e[0], e[1]) for e in (c.get("rewire") or {}).get("drop", [])
